@@ -124,7 +124,7 @@ def gen_transl(r, n, names, lhs):
         sl = list(idx)
         for _ in range(r.choice([0, 0, 1, 2])):
             sl.insert(r.randint(0, len(sl)), NIL)
-        return (next(names) + lhs.lower(), r.choice([0, 1, 1, 2, 3, 5]), sl)
+        return ('@empty' if r.random() < 0.03 else next(names) + lhs.lower(), r.choice([0, 1, 1, 2, 3, 5]), sl)
     if x < 0.8 and n > 0:
         return (None, 0, [r.randrange(n)])
     if x < 0.88:
